@@ -50,7 +50,10 @@ def main():
             f = json.load(fh)
         run.only = (f['rule'], f['function'], f['instance'])
     try:
-        mod.run(run, tier, Loader(run))
+        loader = Loader(run)
+        mod.run(run, tier, loader)
+        import deps
+        deps.apply(run, a.prop, tier, loader)
     except factsmod.ExtractionError as e:
         print('[%s] cannot analyse the tree: %s' % (a.prop, e), file=sys.stderr)
         sys.exit(2)
